@@ -41,7 +41,7 @@ INSTANCES = {
     "D": dict(workers=[1, 1], classes=[1],
               menu=[dict(tasks=[(1, [], 0, 0), (2, [], 0, 0), (3, [], 0, 0)], climit=0, max_fails=-1),
                     dict(tasks=[(1, [], 0, 3), (2, [1], 0, 3)], climit=0, max_fails=-1)],
-              losses=0, cancels=1, fails=0, launch_fails=0, pf_reserve=0, pf_max=1, modes=["any"], tier="thorough"),
+              losses=0, cancels=1, fails=0, launch_fails=0, pf_reserve=0, pf_max=1, modes=["any"], tier="thorough", stop_after=900),
     # a 2-node task among single-node tasks on three workers of two groups: placement, root / non-root loss, cancel, prefill
     "E": dict(workers=[1, 1, 1], groups=["g1", "g1", "g2"], classes=[1, ("mn", 2)],
               menu=[dict(tasks=[(1, [], 0, 0), (2, [], 0, 0)], climit=1, max_fails=-1),
@@ -177,17 +177,22 @@ def model_check_one(name, mode, workers=8, timeout=3600):
         return r
     work = common.scratch()
     try:
-        out = common.tlc("MC_HQ.tla", cfg, work, workers=workers, timeout=timeout, xmx="14g", deque=False)
+        # an instance with `stop_after` is explored breadth first for that many seconds only (TLC stops by itself and reports)
+        stop = INSTANCES[name].get("stop_after")
+        out = common.tlc("MC_HQ.tla", cfg, work, workers=workers, timeout=timeout, xmx="14g", deque=False,
+                         env={"JAVA_TOOL_OPTIONS": f"-Xss1g -Dtlc2.TLC.stopAfter={stop}"} if stop else None)
         distinct, gen = common.tlc_stats(out)
         m = re.search(r"The depth of the complete state graph search is (\d+)", out)
         ok = "Model checking completed. No error has been found." in out
+        bounded = bool(stop) and not ok and not re.search(r"Error: (?:Invariant|Action property)", out) and distinct > 0
         violated = re.findall(r"Error: (?:Invariant|Action property) (\w+) is violated", out)
         r = {"instance": name, "mode": mode, "cfg": cfg, "distinct_states": distinct, "states_generated": gen,
              "depth": int(m.group(1)) if m else None, "completed": ok, "violated": violated, "cached": False,
              "constants": {k: INSTANCES[name][k] for k in ("workers", "classes", "losses", "cancels", "fails", "launch_fails", "pf_reserve", "pf_max")},
              "menu": INSTANCES[name]["menu"],
              "cmd": f"tlc -workers {workers} -config {cfg} MC_HQ.tla"}
-        if not ok and not violated:
+        r["time_bounded"] = bounded
+        if not ok and not violated and not bounded:
             raise common.ToolError("model checking did not complete: " + out[-3000:])
         if violated:
             r["counterexample"] = counterexample_actions(out)
